@@ -226,7 +226,7 @@ func (e *tempError) Temporary() bool { return true }
 
 var (
 	onceMu   sync.Mutex
-	onceDone = map[string]bool{}
+	onceDone = map[string]int{}
 	fires    = map[int]int{}
 )
 
@@ -238,6 +238,10 @@ func FailMsg(run, node int) string { return fmt.Sprintf("verif-user-failure-r%d-
 
 // MakeTemp lets a driver supply how a temporary error is built (errors.E(errors.Temporary,..)).
 var MakeTemp = func(msg string) error { return &tempError{msg} }
+
+// Gate, when non-nil, makes a failing ReaderFunc wait on it before it fails (so
+// that a driver can let other evaluations pile up behind the task first).
+var Gate atomic.Value // of chan struct{}
 
 // FailArmed gates every injected failure (a driver can run a program once
 // without failures and let the same closures fail in a later phase).
@@ -260,10 +264,14 @@ func trip(f *Fail, run, node, shard, calls int) (fire bool) {
 	defer onceMu.Unlock()
 	if f.Once {
 		k := fmt.Sprintf("%d/%d/%d", run, node, shard)
-		if onceDone[k] {
+		times := f.Times
+		if times < 1 {
+			times = 1
+		}
+		if onceDone[k] >= times {
 			return false
 		}
-		onceDone[k] = true
+		onceDone[k]++
 	}
 	fires[run]++
 	return true
@@ -370,6 +378,9 @@ func buildNode(p Prog, schemas []Schema, built []bigslice.Slice, k int, env Env)
 			rows := ReaderRows(n, shard)
 			c := rec.count(k, shard)
 			if trip(n.Fail, env.Run, k, shard, c) {
+				if g, ok := Gate.Load().(chan struct{}); ok && g != nil {
+					<-g
+				}
 				return []reflect.Value{reflect.ValueOf(0), reflect.ValueOf(raise(n.Fail, env.Run, k)).Convert(tErr)}
 			}
 			want := pattern[(st.call+n.N2)%len(pattern)]
